@@ -22,7 +22,7 @@ ASSUMPTIONS = ['only the documented two-character pack formats are generated (pr
                'the value/string clauses are pure functions of the text: they are enumerated here only as workload for the include_bytes simulation']
 REQUIRED_REACH = {'quick': ['ib:embedded-from-non-cwd', 'val:boundary-judged', 'str:non-ascii-judged'],
                   'thorough': ['ib:embedded-from-non-cwd', 'val:boundary-judged', 'str:non-ascii-judged']}
-EXPECTED_REACH = ['ib:decoy-same-size-in-cwd', 'ib:decoy-other-size-in-cwd', 'ib:in-inc-dir', 'ib:in-subdir', 'ib:adjacent-to-included-file',
+EXPECTED_REACH = ['ib:ambiguous-twin', 'ib:decoy-same-size-in-cwd', 'ib:decoy-other-size-in-cwd', 'ib:in-inc-dir', 'ib:in-subdir', 'ib:adjacent-to-included-file',
                   'ib:empty-file', 'ib:all-256', 'ib:64k', 'ib:cli', 'val:misfit-refused', 'fsfault:getsize:grow-after', 'fsfault:getsize:swap-after']
 CHUNK = 40
 
@@ -107,7 +107,7 @@ def rand_data_items(r, n, labels):
             kw = r.choice(SEQ_KW)
             w = refpack.SEQ_WIDTH[kw] * 8
             items.append({'op': 'seq', 'kw': kw, 'values': [r.choice((0, 1, -1, (1 << w) - 1, -(1 << (w - 1)), r.randint(-(1 << (w - 1)), (1 << w) - 1)))
-                                                            for _ in range(r.randint(1, 4))]})
+                                                            for _ in range(r.choice((1, 2, 3, 4, 4, 17, 40)))]})
         elif c < 0.5:
             kw = r.choice(SHORT_KW)
             w = refpack.SHORT_WIDTH[kw] * 8
@@ -128,7 +128,7 @@ def rand_data_items(r, n, labels):
 
 
 STR_POOLS = {
-    'ascii': 'abcXYZ 019 !"#$%&\'()*+,-./:;<=>?@[]^_`{|}~',
+    'ascii': 'abcXYZ 019 !"#$%&\'()*+,-./:;<=>?@[]^_`{|}~\t  ',
     'latin1': 'éèüñßÆøÿ¡¿£©®±µ¶',
     'bmp': '中文日本語한국어ΩλЖक€→√∞',
     'astral': '😀🚀𝄞𐍈🂡',
@@ -162,7 +162,9 @@ def blob_spec(r):
     if c < 0.3:
         return {'all256': 1}, 'all256'
     if c < 0.34:
-        return {'rand': [r.randrange(1 << 30), 65536]}, '64k'
+        return {'rand': [r.randrange(1 << 30), r.choice((65536, 65537, 70000))]}, '64k'
+    if c < 0.40:
+        return {'hex': (b'line1\r\nline2\r\n\x1a\x00tail\xef\xbb\xbfbom\r' + bytes([r.randrange(256)])).hex()}, 'crlf'
     if c < 0.45:
         return {'text': 'db 1\ninclude x.asm\nstring hi\n# c\n'}, 'texty'
     return {'rand': [r.randrange(1 << 30), r.choice((2, 3, 5, 16, 100, 255, 256, 1000))]}, 'rand'
@@ -294,6 +296,16 @@ def make_scenario(spec, seed, idx):
             else:
                 decoys[p] = {'rand': [r.randrange(1 << 30), r.choice((1, 7, 300))]}
                 decoy_kinds.append('other-size')
+    twins = {}
+    if inc_dirs and r.random() < 0.25:
+        for (of, w), pth in sorted(written_by_owner.items()):
+            if posixpath.dirname(pth) == posixpath.dirname(of) and '/' not in w:
+                tp = r.choice(inc_dirs) + '/' + w
+                if tp not in bins and tp not in decoys and not any(tp in progs._cands(inc_dirs, posixpath.dirname(o2), w2) and (o2, w2) != (of, w) for (o2, w2) in written_by_owner):
+                    n = len(progs.bin_bytes(bins[pth]))
+                    twins[tp] = {'rand': [r.randrange(1 << 30), n if r.random() < 0.7 else n + 3]}
+                    twins_of = pth
+                    break
     runs = []
     for cwd in cwds:
         runs.append({'via': 'api', 'cwd': cwd, 'compress': False, 'main_abs': r.random() < 0.7})
@@ -301,7 +313,7 @@ def make_scenario(spec, seed, idx):
     scen = {'kind': 'ib', 'files': files, 'bins': bins, 'decoys': decoys, 'dirs': ['/w/proj', '/w/proj/sub', '/w/proj/data', '/w/proj/sub/data', '/w/lib', '/w/lib/data',
                                                                                        '/w/assets', '/w/elsewhere', '/w/unrelated', '/w/out'],
             'main': main, 'inc_dirs': inc_dirs, 'items': items, 'runs': runs, 'meta': {'places': meta_places, 'decoys': sorted(set(decoy_kinds))},
-            'fs_faults': []}
+            'fs_faults': [], 'twins': twins, 'twin_of': twins_of if twins else None}
     if k == 'ibf':
         scen['fs_faults'] = [{'op': 'getsize', 'n': 1, 'kind': r.choice(('grow-after', 'shrink-after', 'swap-after'))}]
     return scen
@@ -316,6 +328,8 @@ def all_files(scen):
     for p, spec in (scen.get('bins') or {}).items():
         out[p] = progs.bin_bytes(spec)
     for p, spec in (scen.get('decoys') or {}).items():
+        out[p] = progs.bin_bytes(spec)
+    for p, spec in (scen.get('twins') or {}).items():
         out[p] = progs.bin_bytes(spec)
     return out
 
@@ -355,6 +369,18 @@ def run_scenario(scen, keep_events=False):
         want, want_labels, misfit = None, None, str(e)
     meta = scen.get('meta', {})
     sig_out = []
+    alt_wants = []
+    if scen.get('twins'):
+        # the name exists both adjacent and in an -i directory: the statement leaves the choice open, but size, content and the
+        # labels after the blob must all come from ONE of the two files
+        res.hit('ib:ambiguous-twin')
+        for tp in scen['twins']:
+            af = dict(files)
+            af[scen['twin_of']] = files[tp]
+            try:
+                alt_wants.append(refpack.reference_image(scen['items'], af))
+            except refpack.Misfit:
+                pass
     for run in scen['runs']:
         out, fs = run_one(scen, files, run, log, scen.get('fs_faults'))
         for op, p, kd in fs.fired:
@@ -413,6 +439,10 @@ def run_scenario(scen, keep_events=False):
             sig_out.append('refused')
             continue
         got = bytes.fromhex(out['bytes'])
+        if any(got == aw and out['labels'] == al for aw, al in alt_wants):
+            res.hit('ib:twin-in-inc-dir-chosen')
+            sig_out.append('ok-twin')
+            continue
         if got != want:
             # diagnose: is it the image with a decoy's content?
             alt_hit = None
